@@ -75,6 +75,30 @@ Theorem C08_conversions : forall c : core, wf_core c ->
 Proof. exact conversions. Qed.
 Print Assumptions C08_conversions.
 
+(* namespace= / scheme_version= given explicitly to a constructor (None = left
+   at the default): the defaults spelled out build exactly what the plain
+   constructors build; any other namespace or version never yields a value
+   (ValueError of the type converter or ValidationError) - hence every value
+   prints with the constants "swh" and 1 that print_core uses. *)
+Theorem C08_explicit_namespace_version :
+  forall (ns : option text) (ver : option Z) (ty : text) (oid : bytes),
+  ((ns = None \/ ns = Some SWHID_NAMESPACE) -> (ver = None \/ ver = Some SWHID_VERSION) ->
+     mk_core_nv ns ver ty oid = mk_core ty oid /\ mk_ext_nv ns ver ty oid = mk_ext ty oid /\
+     forall origin visit anchor path lines,
+       mk_q_nv ns ver ty oid origin visit anchor path lines = mk_q ty oid origin visit anchor path lines) /\
+  (forall c, mk_core_nv ns ver ty oid = Ok c \/ mk_ext_nv ns ver ty oid = Ok c ->
+     (ns = None \/ ns = Some SWHID_NAMESPACE) /\ (ver = None \/ ver = Some SWHID_VERSION)) /\
+  (forall origin visit anchor path lines v, mk_q_nv ns ver ty oid origin visit anchor path lines = Ok v ->
+     (ns = None \/ ns = Some SWHID_NAMESPACE) /\ (ver = None \/ ver = Some SWHID_VERSION)) /\
+  (nv_bad ns ver = true ->
+     (mk_core_nv ns ver ty oid = Err EValue \/ mk_core_nv ns ver ty oid = Err EValidation) /\
+     (mk_ext_nv ns ver ty oid = Err EValue \/ mk_ext_nv ns ver ty oid = Err EValidation) /\
+     forall origin visit anchor path lines,
+       mk_q_nv ns ver ty oid origin visit anchor path lines = Err EValue \/
+       mk_q_nv ns ver ty oid origin visit anchor path lines = Err EValidation).
+Proof. exact P_C08_explicit_namespace_version. Qed.
+Print Assumptions C08_explicit_namespace_version.
+
 (* KNOWN FINDING int-max-str-digits: without the digit hypothesis the round
    trip fails - with the limit at 3 digits the value with line number 1000
    cannot be printed (ValueError), with the limit at 4 it round-trips.  On
